@@ -298,7 +298,7 @@ def do_call(top, c, tests):
     elif op == "tags":
         top.tags(set(c["n"]), set(c["g"]))
     elif op == "time":
-        top.time(TIMES[c["v"]])
+        top.time(TIMES.get(c["v"]))  # "none": time(None), back to the system clock
     elif op == "stop":
         top.stop()
     elif op == "done":
